@@ -373,4 +373,16 @@ theorem event_span_lines_ordered_for_every_text (k : InKind) (cap : Nat) (text :
   · rw [h]; exact token_span_lines_ordered k cap text sfuel t ht
   · rw [h]; exact Nat.le_refl _
 
+/-- … and through the push interface (`Parser::load`, which the document loaders consume): every span it delivers
+    for the tokens of any text starts no later than it ends -/
+theorem push_event_spans_ordered_for_every_text (k : InKind) (cap : Nat) (text : Str) (sfuel : Nat)
+    (scanErr : Option ScanError) (eofm : Marker) (keep : Bool) (n : Nat)
+    (hn : 16 * (scanAll sfuel (mkSc k cap text) []).1.length + 2 ≤ n) (s : Push)
+    (h : load true n ⟨Api.init (PState.init (scanAll sfuel (mkSc k cap text) []).1 scanErr eofm keep), []⟩ = .ok s) :
+    ∀ v ∈ s.out, v.2.start.index ≤ v.2.stop.index ∧ v.2.start.line ≤ v.2.stop.line := by
+  intro v hv
+  rcases push_spans_are_token_spans _ scanErr eofm keep n hn s h v hv with ⟨t, ht, e⟩ | ⟨t, ht, e⟩
+  · rw [e]; exact ⟨token_spans_ordered k cap text sfuel t ht, token_span_lines_ordered k cap text sfuel t ht⟩
+  · rw [e]; exact ⟨Nat.le_refl _, Nat.le_refl _⟩
+
 end SaphyrModel.C12
